@@ -23,7 +23,8 @@ RULE = ('Each evaluation = one refused-call attempt on a tree produced by a gene
         'bit flip at a drawn position, empty file, not gzip, gzip of non-JSON, gzip of JSON with wrong shape / other software / '
         'newer cacheFileVersion / missing or mistyped keys / unknown operation fields) for both build and clean. A call that '
         'raises without having called any user function is a rejection and must leave the tree bit-identical (bytes, mtime_ns, '
-        'inode; cache file included) and the temp directory empty; for the enumerated classes the call must be rejected at all. '
+        'inode; cache file included) and the temp directory empty; for the enumerated classes the call must be rejected at all; '
+        'a call on a damaged cache that raises only after user functions were called, while the same call with the valid cache does not, is a late refusal. '
         'Calls the library accepts (e.g. a flipped bit in the gzip header mtime) are counted, not judged. Non-trivial = a '
         'rejection observed on a tree with >=1 existing output and >=1 created directory; distinct = distinct (tree, attempt).')
 ASSUMPTIONS = ['a corrupted cache file is an external change made between calls', 'the injected corruptions are deterministic functions of the valid cache bytes and Hypothesis draws']
@@ -86,6 +87,20 @@ def corrupt(valid, spec):
     if kind == 'ops':
         d = json.loads(json.dumps(data))
         ops = d.get('rootOperations') or []
+        if spec.get('deep'):
+            # any operation of the forest, not only the roots (e.g. the record of a caught nested failure)
+            allops = []
+            stack = list(ops)
+            while stack:
+                o = stack.pop(0)
+                if isinstance(o, dict):
+                    if 'suboperations' in o or o.get('type') in ('build_file', 'subbuild'):
+                        allops.append(o)
+                    stack.extend(o.get('suboperations') or [])
+            files = [o for o in allops if o.get('type') == 'build_file']
+            if spec['how'] == 'badcmp' and files:
+                allops = files
+            ops = allops or ops
         if ops:
             op = ops[spec['i'] % len(ops)]
             how = spec['how']
@@ -120,6 +135,8 @@ corruption_specs = st.one_of(
     st.builds(lambda i, h, j: {'kind': 'keys', 'i': i, 'how': h, 'j': j}, st.integers(0, 5), st.sampled_from(['drop', 'set']), st.integers(0, 3)),
     st.builds(lambda i, h: {'kind': 'ops', 'i': i, 'how': h}, st.integers(0, 3),
               st.sampled_from(['droptype', 'badcmp', 'dropargs', 'subops', 'unknowntype'])),
+    st.builds(lambda i, h: {'kind': 'ops', 'i': i, 'how': h, 'deep': True}, st.integers(0, 7),
+              st.sampled_from(['droptype', 'badcmp', 'badcmp', 'dropargs', 'subops', 'unknowntype'])),
 )
 
 type_specs = st.sampled_from([
@@ -242,7 +259,8 @@ def attempt(h, spec, called):
 
 def run_tree(data, counters, fails, nontriv, samples, n_attempts):
     cache_rel = data.draw(st.sampled_from(CFG['caches']))
-    prog = data.draw(gen.program(CFG, cache_rel))
+    # a quarter of the trees come from the nested-failure pattern: their caches hold records of caught failures
+    prog = data.draw(gen.weighted([(3, gen.program(CFG, cache_rel)), (1, gen.nested_failure_program(CFG, cache_rel))]))
     h = Harness(prog, cache_rel, {'keep_going': True})     # other properties' oracles do not gate this check
     evals = 0
     try:
@@ -319,6 +337,21 @@ def run_tree(data, counters, fails, nontriv, samples, n_attempts):
                 if cls in MUST_REJECT:
                     fails.append(failure('C15.not_refused', 'a %s call with a %s defect called user code before failing' % (spec.get('api'), cls),
                                          case, ''.join(traceback.format_exception_only(type(exc), exc))[:500]))
+                elif spec['kind'] not in ('type', 'name', 'directory') and not fails:
+                    # the call was refused *late*: does the same call fail with the valid cache as well (then the generated
+                    # program itself raises, e.g. an uncaught duplicate)?  The failed build was rolled back.
+                    with open(h.cache, 'wb') as f:
+                        f.write(valid)
+                    os.utime(h.cache, ns=(st_valid.st_atime_ns, st_valid.st_mtime_ns))
+                    called2 = []
+                    _cls2, exc2 = attempt(h, dict(spec, kind='twin'), called2)
+                    if exc2 is None or type(exc2) is not type(exc):
+                        counters['late_refusals'] += 1
+                        fails.append(failure('C15.late_refusal', 'a %s call on a cache with a %s defect (%s) raised %s after user functions '
+                                             'had been called; with the valid cache it %s' % (
+                                                 spec.get('api'), cls, spec.get('how') or spec.get('where') or '', type(exc).__name__,
+                                                 'succeeds' if exc2 is None else 'raises ' + type(exc2).__name__), case,
+                                             ''.join(traceback.format_exception(type(exc), exc, exc.__traceback__))[-1200:]))
             else:
                 counters['accepted'] += 1
                 counters['accepted_' + cls] += 1
@@ -393,6 +426,14 @@ def replay(case):
                 fails.append(failure('C15.tempdir', 'rejected call left a temporary directory behind', case, ''))
         elif cls in MUST_REJECT:
             fails.append(failure('C15.not_refused', 'a %s call with a %s defect was not refused' % (spec.get('api'), cls), case, repr(exc)))
+        elif exc is not None and called and spec['kind'] not in ('type', 'name', 'directory'):
+            with open(h.cache, 'wb') as f:
+                f.write(valid)
+            os.utime(h.cache, ns=(stv.st_atime_ns, stv.st_mtime_ns))
+            _c2, exc2 = attempt(h, dict(spec, kind='twin'), [])
+            if exc2 is None or type(exc2) is not type(exc):
+                fails.append(failure('C15.late_refusal', 'a %s call on a cache with a %s defect raised %s after user functions had been called' % (
+                    spec.get('api'), cls, type(exc).__name__), case, repr(exc)))
         return fails
     finally:
         h.close()
